@@ -37,6 +37,9 @@ def run(rep, tier, seed):
         doc = hostile_document(rng)
         n = rng.choice([1, 1, 2, 2, 3])
         rrs = [ruledrv.rule_recipe(rng, doc, well_typed=True, cast_p=0.4, maxlen=3) for _ in range(n)]
+        sub = rng.random() < 0.04 and "dtype" not in repr(rrs)
+        if sub:
+            doc = gen.subclassify(doc)       # OrderedDict / list-subclass documents are documents all the same
         try:
             if rng.random() < 0.5:
                 e = ruledrv.validate_event(len(events) + 1, rrs, doc, as_data=rng.random() < 0.3)
@@ -50,6 +53,7 @@ def run(rep, tier, seed):
         except (TypeError, ValueError):
             continue
         events.append(e)
+        rec["sub"] = sub
         recipes[e["id"]] = rec
         rep.note_case(repr((rrs, doc, e["op"])), nontrivial=e["outcome"] != "ok" or e["nfail"] > 0 or e["ntested"] > 0 or e["tested"])
     ruledrv.judge(rep, events, recipes, ruledrv.default_key)
